@@ -67,7 +67,14 @@ def generate(seed: int, tier: str, index: int) -> dict:
                 for name in ("clearkey__la_url", "marlin__la_url", "playready__la_url"):
                     if rng.random() < 0.3:
                         q[name] = rng.choice(RESERVED_URLS)
-            if rng.random() < 0.25:
+            if mode == "live" and not script and rng.random() < 0.3:
+                # an error addressed by time of day: it is translated into a segment number per media type as long
+                # as the time lies inside the time-shift window (on the day of availabilityStartTime)
+                tod = (t0 // 1_000_000 - rng.randrange(1, 25)) % 86400
+                q[rng.choice(["verr", "aerr", "aerr"])] = \
+                    f"{rng.choice([404, 410, 503])}={tod // 3600:02d}:{tod // 60 % 60:02d}:{tod % 60:02d}Z"
+                q["start"] = rng.choice(["today", "today", "epoch", "month"])
+            elif rng.random() < 0.25:
                 q[rng.choice(["verr", "aerr", "terr"])] = rng.choice(["503=00:00:10Z", "404=5", "410=23:59:59Z,503=3"])
                 if rng.random() < 0.5:
                     q["failures"] = str(rng.choice([0, 1, 3]))
@@ -172,6 +179,8 @@ class Oracle:
                             sim.violate("media-url-unparseable", f"{ctype}/{what}",
                                         f"the media endpoint rejects the query of {url[:200]!r}: {err}; manifest {doc.url[:200]}")
                             continue
+                        if what == "media":
+                            self.check_error_time(doc, ctype, rep, args, url)
                         for opt in OptionsRepository.get_dash_options():
                             if opt.full_name in ("mode",):
                                 continue
@@ -208,6 +217,47 @@ class Oracle:
                                                     f"{a!r} -> {txt!r} -> {norm(back)!r}; {doc.url[:200]}")
                                 except Exception as err:  # noqa: BLE001
                                     sim.violate("roundtrip", opt.cgi_name, f"{type(err).__name__}: {err}; value {a!r}")
+
+
+def _check_error_time(self, doc, ctype: str, rep, args: dict, url: str) -> None:
+    """verr/aerr/terr=<code>=<HH:MM:SS>Z on a live manifest: the number written into that media type's URL must
+    designate the segment of *that* Representation at the requested time (the segment containing the instant or
+    the one ending at it - the statement does not fix which)."""
+    sim = self.sim
+    name = {"video": "verr", "audio": "aerr", "text": "terr"}.get(ctype)
+    mq = dict(urllib.parse.parse_qsl(urllib.parse.urlsplit(doc.url).query))
+    m = doc.mpd
+    tmpl = rep.template
+    if name is None or name not in mq or m.ast_us is None or m.tsbd is None or tmpl is None or not tmpl.duration:
+        return
+    want = []
+    for item in mq[name].split(","):
+        code, _, pos = item.partition("=")
+        if not pos.endswith("Z") or pos.count(":") != 2:
+            return
+        hh, mm, ss = (int(x) for x in pos[:-1].split(":"))
+        day0 = m.ast_us - m.ast_us % 86_400_000_000
+        tm = day0 + (hh * 3600 + mm * 60 + ss) * 1_000_000
+        if not (doc.fetched_us - int(m.tsbd * 1_000_000) < tm <= doc.fetched_us) or tm < m.ast_us:
+            return          # outside the window (or at its very edge): not translated
+        x = (tm - m.ast_us) * tmpl.timescale // (tmpl.duration * 1_000_000)
+        want.append((code, x))
+    got = args.get(name)
+    sim.check("c07-error-time")
+    pairs = []
+    for item in (got or "").split(","):
+        code, _, n = item.partition("=")
+        pairs.append((code, int(n)) if n.isdigit() else (code, None))
+    ok = len(pairs) == len(want) and all(c == wc and n is not None and n - wx in (0, 1)
+                                         for (c, n), (wc, wx) in zip(pairs, want))
+    if not ok:
+        sim.violate("error-time-segment", f"{name}/{ctype}",
+                    f"{name}={mq[name]} requested; the {ctype} media URL carries {name}={got!r}, the segment of this "
+                    f"Representation at that time is {[w[1] for w in want]} (+1) with @duration={tmpl.duration}/"
+                    f"{tmpl.timescale}; {doc.url[:200]}")
+
+
+Oracle.check_error_time = _check_error_time
 
 
 def execute(spec: dict) -> dict:
